@@ -4,11 +4,12 @@ import (
 	"fmt"
 	"mime"
 	"strconv"
+	"strings"
 
 	"github.com/gabriel-vasile/mimetype/internal/charset"
 )
 
-var c11Alphabet = []byte{0x61, 0x0A, 0x1B, 0x7F, 0x80, 0x85, 0x8F, 0x90, 0x9F, 0xA0, 0xBB, 0xBF, 0xC2, 0xDF, 0xE0, 0xE1, 0xED, 0xEF, 0xF0, 0xF4, 0xF5, 0xFE, 0xFF}
+var c11Alphabet = []byte{0x61, 0x0A, 0x1B, 0x7F, 0x80, 0x85, 0x8F, 0x90, 0x9F, 0xA0, 0xBB, 0xBD, 0xBF, 0xC2, 0xDF, 0xE0, 0xE1, 0xED, 0xEF, 0xF0, 0xF4, 0xF5, 0xFE, 0xFF}
 
 func csCode(s string) byte {
 	switch s {
@@ -111,6 +112,30 @@ func runC11(c *runCtx) {
 		"Plain ASCII text.\n", "café au lait — naïve façade", "日本語のテキストです。", "emoji 😀 here 👍", "Ünïcödé ßtraße", "Wait\x85", "caf\xe9", "\x93quoted\x94 text", "na\xefve caf\xe9", "\x85",
 		"caf\xc3\xa9", "x\xf0\x9f\x98\x80", "a\xed\xa0\x80b", "a\xc0\xafb", "\xef\xbb\xbfBOM text", "\xff\xfeh\x00i\x00", "\xfe\xff\x00h", "\x00\x00\xfe\xffx", "\xff\xfe\x00\x00x\x00\x00\x00",
 		"tab\tsep\x1bescape\x7fdel", "bell\x07 backspace\x08 formfeed\x0c",
+		"caf\xef\xbf\xbd au lait (a real U+FFFD)\n", "price: 10 \xe2\x82\xac \xef\xbf\xbd\xef\xbf\xbd ok", "\xef\xbf\xbd", "\xef\xbf\xbe noncharacter \xf4\x8f\xbf\xbf",
+	}
+	// long texts whose charset-deciding bytes lie far behind the default limit, examined under larger limits
+	pad := strings.Repeat("ascii filler line 0123456789\n", 110) // 3190 bytes
+	for _, tail := range []string{"caf\xe9 au lait", "Wait\x85 d\xe9j\xe0", "\xc3\xa9 suite et fin", "tout en ascii", "caf\xc3\xa9 \xef\xbf\xbd"} {
+		for _, padLen := range []int{3071, 3072, 3190, 5400} {
+			b := []byte(strings.Repeat(pad, 2)[:padLen] + tail)
+			for _, lim := range []uint32{0, 8192, uint32(len(b)), uint32(len(b) - 1), 3072} {
+				if !c.mine(b, []byte("long"), []byte(strconv.Itoa(int(lim)))) {
+					continue
+				}
+				m, pan := detectAt(b, lim)
+				if pan == nil && m != nil && bareType(m.String()) == "text/plain" {
+					_, ps, err := mime.ParseMediaType(m.String())
+					dcs := ""
+					if err == nil {
+						dcs = ps["charset"]
+					}
+					h := header(b, lim)
+					c.stats.note("long-text", append([]byte(strconv.Itoa(int(lim))+":"), b...), len(h), dcs != "")
+					c.emit("c11", hx(h), dcs, "Detect")
+				}
+			}
+		}
 	}
 	for _, t := range texts {
 		b := []byte(t)
